@@ -18,17 +18,19 @@ from .core import VERIF, log
 
 
 def write_replay(pid, payload):
-    os.makedirs(os.path.join(VERIF, 'replays'), exist_ok=True)
+    rdir = os.path.join(VERIF, 'replays') if not core.TAG else os.path.join(VERIF, 'build', 'mut', core.TAG)
+    os.makedirs(rdir, exist_ok=True)
     h = hashlib.sha1(json.dumps(payload, sort_keys=True, default=str).encode()).hexdigest()[:10]
-    path = os.path.join(VERIF, 'replays', '%s-%s.json' % (pid, h))
+    path = os.path.join(rdir, '%s-%s.json' % (pid, h))
     with open(path, 'w') as f:
         json.dump(payload, f, indent=1, default=str, sort_keys=True)
     return path
 
 
 def write_evidence(pid, ev):
-    os.makedirs(os.path.join(VERIF, 'evidence'), exist_ok=True)
-    with open(os.path.join(VERIF, 'evidence', pid + '.json'), 'w') as f:
+    edir = os.path.join(VERIF, 'evidence') if not core.TAG else os.path.join(VERIF, 'build', 'mut', core.TAG)
+    os.makedirs(edir, exist_ok=True)
+    with open(os.path.join(edir, pid + '.json'), 'w') as f:
         json.dump(ev, f, indent=1, default=str)
 
 
@@ -195,7 +197,7 @@ def main(argv):
     if rc in (0, 1):
         return rc
     # abnormal termination: crash / hang of the implementation under test
-    cur = os.path.join(VERIF, 'build', 'run', pid + '.current.json')
+    cur = os.path.join(VERIF, 'build', 'run', pid + core.TAG + '.current.json')
     case = None
     if os.path.exists(cur):
         try:
